@@ -17,10 +17,10 @@ VARIABLES envs, progs, hist, out
 vars == <<envs, progs, hist, out>>
 Runners == {"I", "C"}
 Decls == {"none", "dotted", "xint", "pkg"}
-Exprs == {"const", "var", "dotref", "macro", "has", "cond", "sizeplain", "sizeov", "twiceplain", "twiceov"}
+Exprs == {"const", "var", "dotref", "macro", "has", "cond", "sizeplain", "sizeov", "twiceplain", "twiceov", "tzplus", "tzminus"}
 \* sizeplain / twiceplain: size("h\u00e9llo") and twice(21) in a program built WITHOUT application functions;
 \* sizeov / twiceov: the same texts in a program built with functions = [size (UTF-8 octets, overriding the built-in), twice]
-Bindings == {"empty", "x1", "xneg", "ab7", "ab8x2", "mf", "amap"}
+Bindings == {"empty", "x1", "xneg", "ab7", "ab8x2", "mf", "amap", "amapab"}
 I(n) == IntV(FromInt(n))
 nA == <<97>>  nB == <<98>>  nM == <<109>>  nF == <<102>>  nX == <<120>>
 BindingOf(b) == CASE b = "empty" -> <<>>
@@ -30,6 +30,7 @@ BindingOf(b) == CASE b = "empty" -> <<>>
                   [] b = "ab8x2" -> << <<<<nA, nB>>, I(8)>>, <<<<nX>>, I(2)>> >>
                   [] b = "mf" -> << <<<<nM>>, Map(<< <<Str(nF), I(1)>> >>)>> >>
                   [] b = "amap" -> << <<<<nA>>, Map(<< <<Str(nB), I(9)>> >>)>> >>
+                  [] b = "amapab" -> << <<<<nA>>, Map(<< <<Str(nB), I(9)>> >>)>>, <<<<nA, nB>>, I(7)>> >>      \* the map first, then the dotted name
 X == Var("x")
 \* the plain variable environment Eval uses (single-component names only)
 VarEnv(bs) == [j \in 1..Len(bs) |-> <<IF bs[j][1] = <<nX>> THEN "x" ELSE IF bs[j][1] = <<nM>> THEN "m" ELSE "other", bs[j][2]>>]
@@ -50,6 +51,9 @@ Outcome(d, e, b) ==
     [] e = "sizeov" -> I(6)                    \* this program's own function
     [] e = "twiceplain" -> Err                 \* no such function in THIS program, whatever other programs were given
     [] e = "twiceov" -> I(42)
+    \* 2009-02-13T12:00:00Z seen from +02:00 and from -02:00 (the same offset with either sign, in either order of first use)
+    [] e = "tzplus" -> Eval(MCall(Lit(Ts(Mul(FromInt(1234526400), MegaB))), "getHours", <<Lit(Str(<<43, 48, 50, 58, 48, 48>>))>>), <<>>)
+    [] e = "tzminus" -> Eval(MCall(Lit(Ts(Mul(FromInt(1234526400), MegaB))), "getHours", <<Lit(Str(<<45, 48, 50, 58, 48, 48>>))>>), <<>>)
     [] e = "cond" -> (LET x == Ref(d, bs, <<nX>>) IN IF IsIndef(x) THEN Indef ELSE IF IsErr(x) THEN Err
                       ELSE Eval(CondE(Bin(">", X, Lit(I(0))), Lit(Str(<<112>>)), Lit(Str(<<110>>))), env))
 None == [t |-> "none"]
